@@ -136,7 +136,8 @@ Example C06_nonvacuous_1023 : wf (SStruct [SBits 1000; SList 23 (SBits 1)]) = tr
 Proof. vm_compute. split; reflexivity. Qed.
 Example C06_nonvacuous_store :
   let '(a, st1) := alloc ex_v empty_store in owned st1 a /\
-  run_scenario ex_T ScIlshiftPokeFlip (unpack ex_T 0) ex_v true [Fld 0] 1 = (0x2ca8642f17935, 0x156ca8642f17935).
+  (let '(b, a') := run_scenario ScIlshiftPokeFlip (unpack ex_T 0) ex_v true [Fld 0] 1 in (pack ex_T b, pack ex_T a'))
+  = (0x2ca8642f17935, 0x156ca8642f17935).
 Proof. vm_compute. split; [intros k Hk; lia|reflexivity]. Qed.
 
 Print Assumptions C06_width_is_sum_of_leaf_widths. Print Assumptions C06_pack_in_range.
